@@ -22,7 +22,7 @@ import engine  # noqa: E402
 import propdefs  # noqa: E402
 
 COQ = os.path.join(VERIF, "coq")
-EVID = os.path.join(VERIF, "evidence")
+EVID = os.environ.get("VERIF_EVIDENCE_DIR") or os.path.join(VERIF, "evidence")   # (seedtest.py redirects it)
 REPLAYS = os.path.join(VERIF, "replays")
 KNOWN = os.path.join(VERIF, "known_findings.json")
 
